@@ -51,6 +51,8 @@ RESET_POINTS = [
     ('_command_EHLO', '250', ('have_mailfrom', 'have_rcptto')),
     ('_command_HELO', '250', ('have_mailfrom', 'have_rcptto')),
     ('_command_RSET', '250', ('have_mailfrom', 'have_rcptto')),
+    # RFC 3207 4.2: after the handshake the server discards what it learnt
+    ('_command_STARTTLS', '220', ('have_mailfrom', 'have_rcptto')),
     ('_get_message_data', None, ('have_mailfrom', 'have_rcptto')),
 ]
 
@@ -632,6 +634,21 @@ def r75_edge(e: Engine, rep: Report):
                         'self.envelope.recipients'):
                 hit = True
             if hit:
+                vals = [v for v in g.calls()
+                        if e.call_name(v) == '_call_validator']
+                vb = dataflow.must_events_before(
+                    g, lambda x: ['validated'] if x in vals else [])
+                rep.evaluations += 1
+                rep.check('validated' in (vb.get(n.id) or ()), 'R7.5',
+                          SESSION + '.' + meth,
+                          'envelope %s only after the validator ran' % what,
+                          'the edge records the %s before the validator '
+                          'decided: a rejected %s command still changes the '
+                          'envelope' % ('sender' if meth == 'MAIL'
+                                        else 'recipient', meth),
+                          loc=n.loc(),
+                          reason='_call_validator on every path before')
+            if hit:
                 found += 1
                 rep.evaluations += 1
                 st = fx.at(n)
@@ -645,6 +662,46 @@ def r75_edge(e: Engine, rep: Report):
         if not found:
             rep.error('anchor vanished: envelope %s in %s.%s' % (
                 what, SESSION, meth))
+    # on every path of MAIL on which the reply may be 250 a fresh Envelope
+    # was installed (keeping an existing one keeps the recipients of a
+    # message that the data validator rejected)
+    ctx = e.method_ctx(SESSION, 'MAIL')
+    g = e.build(ctx)
+    rp = '%s#%d' % (ctx.func.params[1], g.entry.frame.id)
+
+    def fresh_assign(n):
+        if n.kind == 'stmt' and isinstance(n.ast, ast.Assign) and any(
+                path_of(t, n.frame) == 'self.envelope'
+                for t in n.ast.targets) and \
+                isinstance(n.ast.value, ast.Call):
+            return any(c.endswith('envelope.Envelope')
+                       for c in e.r.resolve_call(n.ast.value,
+                                                 n.frame.ctx).ctor_of)
+        return False
+
+    def step(n, label, st):
+        ok250, fresh = st
+        if n.kind == 'test' and label in ('T', 'F'):
+            for pol, k in atoms_of_test(n.ast, label == 'T', n.frame):
+                if k == "%s.code == '250'" % rp:
+                    ok250 = 'yes' if pol else 'no'
+        if fresh_assign(n) and not isinstance(label, tuple):
+            fresh = True
+        return (ok250, fresh)
+    init = ('unknown', False)
+    pth = dataflow.typestate_witness(
+        g, init, step,
+        lambda n, st: n is g.exit and st[0] == 'yes' and not st[1])
+    rep.evaluations += 1
+    rep.check(pth is None, 'R7.5', SESSION + '.MAIL',
+              'an accepted MAIL always starts from a fresh Envelope',
+              'MAIL can be accepted (250) while self.envelope keeps the '
+              'object of an earlier transaction: when the data validator '
+              'rejected that message its recipients are still in it and '
+              'are enqueued together with the next message',
+              loc=ctx.func.loc(),
+              reason='self.envelope = Envelope(...) on every 250 path',
+              witness=dataflow.render_path(pth, 12) if pth else None)
     # RSET drops unconditionally; EHLO/HELO under 250; HAVE_DATA after
     # handoff
     reset_typestate(e, rep, 'R7.5', SESSION, 'RSET', None, ('envelope',),
